@@ -136,7 +136,7 @@ impl PseudoOperationHandbook {
                 if lower.starts_with("lstdo") {
                     return lower[0..5].to_string();
                 }
-                lower[0..3].to_string()
+                lower.chars().take(3).collect::<String>()
             },
             false => mnemonic.to_lowercase()
         }
